@@ -103,13 +103,12 @@ class Check:
         known_lines = []
         for key, dets in bykey.items():
             n = len(dets)
-            allow = 0
-            if key in reviewed:
-                allow = reviewed[key][0]
-                n_reviewed += min(n, allow)
-            elif key in known:
-                allow = known[key][0]
-                n_known += min(n, allow)
+            # a key may stand for several sites of one kind in one function, some reviewed safe and some known defects
+            r_allow = reviewed[key][0] if key in reviewed else 0
+            k_allow = known[key][0] if key in known else 0
+            allow = r_allow + k_allow
+            n_reviewed += min(n, r_allow)
+            n_known += min(max(n - r_allow, 0), k_allow)
             if n > allow:
                 for det in dets[allow:] if allow else dets:
                     violations.append((key, det, n, allow))
@@ -138,7 +137,7 @@ class Check:
                 json.dump(rep, f, indent=1, default=str)
             out_lines.append("VIOLATION property=%s replay=%s" % (self.prop, path))
             out_lines.append("  key: %s   (found x%d, allowed x%d)" % (key, n, allow))
-            for k in ("where", "fn", "rule", "what", "why", "path"):
+            for k in ("detail", "where", "fn", "rule", "what", "why", "path"):
                 if k in det:
                     out_lines.append("  %s: %s" % (k, det[k]))
         for ln in known_lines:
